@@ -281,6 +281,119 @@ def selectedNow (cfg : Cfg) (s : St2) : Bool :=
   | some i => i.selected cfg s.cls
   | none => false
 
+/-! ## The annotation as the code reads it: `ann, hasAnn := ing.Annotations[...]`
+
+The map lookup yields the pair (value, present).  A generator of class states has to cover FOUR
+states of the annotation: absent `("", false)`, present but empty `("", true)` (what a chart
+renders from an unset value), the controller's class, any other value.  The first two have the
+same VALUE and different verdicts (`Props/C08List.lean: presence_matters`). -/
+
+/-- cache.go `IsValidIngress` on the raw lookup result `p = (ann, hasAnn)`; `ic` = `config.IngressClass` -/
+def isValidRaw (cfg : Cfg) (ic : String) (p : String × Bool) (cls : Cls) : Bool :=
+  let ann := p.1
+  let hasAnn := p.2
+  let fromAnn :=
+    if cfg.watch then !hasAnn || ann == ic
+    else hasAnn && ann == ic
+  let hasClass := cls != .absent
+  let fromClass := if hasClass then fromClassOf cfg cls else false
+  if hasAnn then
+    if hasClass && fromAnn != fromClass then
+      if cfg.prec then fromClass else fromAnn
+    else fromAnn
+  else if hasClass then fromClass
+  else fromAnn
+
+/-- the abstraction of the raw lookup used by every C08 theorem -/
+def absOf (ic : String) (p : String × Bool) : Ann :=
+  if !p.2 then .absent else if p.1 == ic then .ours else .foreign
+
+/-- the four annotation states a generator must reach -/
+inductive AnnS | absent | empty | ours | foreign
+deriving DecidableEq, Repr, Inhabited
+
+def AnnS.raw (ic other : String) : AnnS → String × Bool
+  | .absent => ("", false)
+  | .empty => ("", true)
+  | .ours => (ic, true)
+  | .foreign => (other, true)
+
+/-! ## Listings: several ingresses in ONE answer of `client.List`, and full syncs
+
+`GetIngressList` (the reader behind every full sync and the status updater) lists every
+Ingress of the cluster in the order the client returns them and keeps the valid ones:
+`getIngressList` above.  Here the cluster is the `world` of the history model, `order` the
+order in which the client lists the ingresses. -/
+
+/-- what `client.List` returns: the existing ingresses among `order`, in that order -/
+def listing (w : Nat → Option Obj) (order : List Nat) : List (Nat × Ann × Cls) :=
+  order.filterMap fun i => (w i).map fun o => (i, o.ann, o.cls)
+
+/-- the ingresses `GetIngressList` returns -/
+def listed (cfg : Cfg) (w : Nat → Option Obj) (order : List Nat) : List Nat :=
+  getIngressList cfg (listing w order)
+
+/-- a cluster given as a list: ingress `k` is the `k`-th element -/
+def worldOf (l : List Obj) : Nat → Option Obj := fun i => l[i]?
+
+def Op.idx : Op → Nat
+  | .create i _ => i
+  | .update i _ => i
+  | .delete i => i
+
+/-- histories with full syncs: `full order` = a reconciliation that asks for a full sync
+(start-up, global ConfigMap change, IngressClass / Gateway API event, leader change) while the
+client lists the ingresses in `order` -/
+inductive OpF
+  | op (o : Op)
+  | full (order : List Nat)
+deriving Repr
+
+structure StF where
+  st : St := St.init
+  /-- every index an operation has named so far (a superset of the existing ingresses) -/
+  dom : List Nat := []
+
+/-- a full sync drops the whole configuration and converts exactly what `GetIngressList` returns -/
+def fullSync (cfg : Cfg) (s : St) (order : List Nat) : St :=
+  { s with contrib := fun i => (listed cfg s.world order).contains i }
+
+/-- a listing that omits an ingress named before is not an answer of a consistent client: such a
+`full` is skipped (as impossible operations are) -/
+def stepF (cfg : Cfg) (s : StF) : OpF → StF
+  | .op o => { st := step cfg s.st o, dom := o.idx :: s.dom }
+  | .full order =>
+    if s.dom.all (fun i => order.contains i) then { s with st := fullSync cfg s.st order } else s
+
+def runF (cfg : Cfg) (ops : List OpF) : StF := ops.foldl (stepF cfg) {}
+
+/-- the rule applied to ingress `i` of the cluster `l` -/
+def selList (cfg : Cfg) (l : List Obj) (i : Nat) : Bool :=
+  match l[i]? with
+  | some o => o.selected cfg
+  | none => false
+
+/-- `list` cases: `ids` = the ingresses the facade's GetIngressList returned for the cluster `l`.
+Each ingress of the cluster is in the answer iff the rule selects IT — whatever else is listed,
+in whatever order. -/
+def oracleList (cfg : Cfg) (l : List Obj) (ids : List Nat) : Option String :=
+  if ids.any (fun i => i ≥ l.length) then some "list-returns-unknown-ingress"
+  else if ids.eraseDups.length != ids.length then some "list-returns-duplicate"
+  else if (List.range l.length).any (fun i => ids.contains i && !(selList cfg l i)) then
+    some "unselected-ingress-listed"
+  else if (List.range l.length).any (fun i => !(ids.contains i) && selList cfg l i) then
+    some "selected-ingress-not-listed"
+  else none
+
+/-- `lsync` cases: `bits i` = the host of ingress `i` is in the haproxy model, `sel i` = the rule
+selects the current object `i`; `full` = the reconciliation was a full sync -/
+def oracleSync (n : Nat) (full : Bool) (bits sel : Nat → Bool) : Option String :=
+  if (List.range n).any (fun i => bits i && !(sel i)) then
+    some (if full then "unselected-ingress-configured-by-full-sync" else "unselected-ingress-configured")
+  else if (List.range n).any (fun i => !(bits i) && sel i) then
+    some (if full then "selected-ingress-dropped-by-full-sync" else "selected-ingress-not-configured")
+  else none
+
 /-! ## Oracle on implementation outputs -/
 
 /-- `valid` cases: the facade's IsValidIngress / GetIngress / GetIngressList answers -/
